@@ -84,7 +84,7 @@ func sweepPrefixes() []sweepPrefix {
 
 // refusalSweep: in every state, every method refused by the application (status >= 400, no error),
 // then: does media still flow, and do the next legal requests behave?
-func refusalSweep() (names []string, cases [][]string) {
+func refusalSweep(quick bool) (names []string, cases [][]string) {
 	methods := []string{"setup", "play", "record", "pause", "announce", "getparameter", "setparameter", "describe"}
 	for _, p := range sweepPrefixes() {
 		resume := "play"
@@ -92,6 +92,9 @@ func refusalSweep() (names []string, cases [][]string) {
 			resume = "record"
 		}
 		followups := []string{"pause", resume, "getparameter", "teardown"}
+		if quick {
+			followups = []string{"pause", "teardown"}
+		}
 		for mi, m := range methods {
 			for _, f := range followups {
 				b := &opBuilder{}
